@@ -1,9 +1,305 @@
-import Model.FilePiece
-import Model.Tokenize
+import Proofs.FilePieceMain
+import Proofs.FilePieceRC
+import Proofs.FilePieceTokenize
 import Generated.C18
+/-!
+# C18 — Text input is transparent to buffering, mapping, compression and read sizes
+
+Model: `lean/Model/FilePiece.lean` (the window state of `util::FilePiece`, `Shift` / `MMapShift` /
+`ReadShift`, every reading operation, `util::ReadCompressed` member chaining) and
+`lean/Model/Tokenize.lean` (`TokenIter`).  Spec: `specOp` — the same operation on the *whole*
+remaining byte string.  The theorems quantify over every input, every chunk oracle (how the OS /
+decompressor splits the data into reads), every `min_buffer`, every page size > 0, both modes,
+every operation sequence; nothing is bounded.
+
+The repaired code is `cfg.fixH = true ∧ cfg.fixI = true`; section `Old` proves that today's code
+(`false`) violates the central theorem, with witnesses that the check replays on the real code.
+-/
 namespace KV.C18
 open KV.FilePiece
 
+/-! ## tie to the regenerated constants -/
+
+/-- the model's `isSpace` is `util::kSpaces` as compiled from the current tree -/
 theorem kSpaces_table : (List.range 256).filter isSpace = KV.Gen.C18.kSpaces := by decide
+
+/-- the smallest and the default window (`InitializeNoRead`) computed by the model's formula equal the values
+observed on real `FilePiece` objects built with `min_buffer = 0` and with the default argument -/
+theorem initMapSize_observed :
+    initMapSize KV.Gen.C18.pageSize 0 = KV.Gen.C18.minMapSize ∧
+    initMapSize KV.Gen.C18.pageSize 1048576 = KV.Gen.C18.defaultMapSize := by decide
+
+theorem pageSize_pos : 0 < KV.Gen.C18.pageSize := by decide
+
+/-! ## window invariant -/
+
+/-- **window_inv**: after construction (any backend, any `min_buffer`) the window is the slice
+`bytes[mappedOffset, mappedOffset + len)` of the input, `position_` lies inside it, `at_end_` implies the
+window reaches EOF (all packed in `Inv`), `Offset()` is 0; and every operation preserves this. -/
+theorem window_inv (env : Env) (hp : 0 < env.cfg.page) (hH : env.cfg.fixH = true) (hI : env.cfg.fixI = true)
+    (G : NumKind → Grammar) (hG : ∀ k, GrammarOK (G k)) :
+    (∀ mb b, Inv env (init env mb b) ∧ (init env mb b).offset = 0) ∧
+    (∀ op st, Inv env st → Inv env (runOp env G op st).2) :=
+  ⟨fun mb b => init_spec env mb b hp hH, fun op st h => (op_transparent_aux env G hG hH hI op st h).2.2⟩
+
+/-- what `Inv` says, spelled out -/
+theorem window_inv_meaning (env : Env) (st : St) (h : Inv env st) :
+    st.win = (env.bytes.drop st.mappedOffset).take st.win.length ∧ st.pos ≤ st.win.length ∧
+    st.mappedOffset + st.win.length ≤ env.bytes.length ∧
+    (st.atEnd = true → st.mappedOffset + st.win.length = env.bytes.length) ∧
+    st.visible = (env.bytes.drop st.offset).take (st.win.length - st.pos) :=
+  ⟨h.win_eq, h.pos_le, h.in_range, h.atEnd_end, h.visible_eq⟩
+
+/-! ## transparency -/
+
+/-- **op_transparent**: for every operation, chunk oracle, `min_buffer`, page size and mode, from every
+reachable state: the result is the spec's result on the remaining bytes, `Offset()` advances by exactly the
+bytes the spec consumes, and the invariant is kept.  (`canon` only identifies the two outcomes the property
+leaves open at the end of the input, see `Model/FilePiece.lean`.) -/
+theorem op_transparent (env : Env) (G : NumKind → Grammar) (hG : ∀ k, GrammarOK (G k))
+    (hH : env.cfg.fixH = true) (hI : env.cfg.fixI = true) (op : Op) (st : St) (h : Inv env st) :
+    canon op (runOp env G op st).1 = (specOp G op (env.bytes.drop st.offset)).1 ∧
+    (runOp env G op st).2.offset = st.offset + (specOp G op (env.bytes.drop st.offset)).2 ∧
+    Inv env (runOp env G op st).2 :=
+  op_transparent_aux env G hG hH hI op st h
+
+/-- **transcript_fn**: the transcript (results and offsets) of any operation sequence is the spec transcript
+of the bytes — hence identical for any two executions over the same bytes, whatever their chunk oracles,
+buffer sizes, page sizes and backends. -/
+theorem transcript_fn (env₁ env₂ : Env) (hb : env₁.bytes = env₂.bytes)
+    (hp₁ : 0 < env₁.cfg.page) (hH₁ : env₁.cfg.fixH = true) (hI₁ : env₁.cfg.fixI = true)
+    (hp₂ : 0 < env₂.cfg.page) (hH₂ : env₂.cfg.fixH = true) (hI₂ : env₂.cfg.fixI = true)
+    (G : NumKind → Grammar) (hG : ∀ k, GrammarOK (G k)) (mb₁ mb₂ : Nat) (b₁ b₂ : Backend) (ops : List Op) :
+    transcript env₁ G ops (init env₁ mb₁ b₁) = specTranscript G env₁.bytes ops 0 ∧
+    transcript env₁ G ops (init env₁ mb₁ b₁) = transcript env₂ G ops (init env₂ mb₂ b₂) := by
+  obtain ⟨i1, o1⟩ := init_spec env₁ mb₁ b₁ hp₁ hH₁
+  obtain ⟨i2, o2⟩ := init_spec env₂ mb₂ b₂ hp₂ hH₂
+  have t1 := transcript_spec env₁ G hG hH₁ hI₁ ops _ i1
+  have t2 := transcript_spec env₂ G hG hH₂ hI₂ ops _ i2
+  rw [o1] at t1; rw [o2] at t2
+  exact ⟨t1, by rw [t1, t2, hb]⟩
+
+theorem specOp_nil (G : NumKind → Grammar) (op : Op) :
+    ((specOp G op []).1 = Res.eof ∨ (specOp G op []).1 = Res.noWord ∨ (specOp G op []).1 = Res.skipped) ∧
+    (specOp G op []).2 = 0 := by
+  cases op <;> simp [specOp]
+
+/-- **after_eof**: once the input is exhausted every further operation reports end of input (or "no word" /
+"nothing skipped"), never data, and stays at the end. -/
+theorem after_eof (env : Env) (G : NumKind → Grammar) (hG : ∀ k, GrammarOK (G k))
+    (hH : env.cfg.fixH = true) (hI : env.cfg.fixI = true) (op : Op) (st : St) (h : Inv env st)
+    (hend : env.bytes.drop st.offset = []) :
+    (canon op (runOp env G op st).1 = Res.eof ∨ canon op (runOp env G op st).1 = Res.noWord ∨
+      canon op (runOp env G op st).1 = Res.skipped) ∧
+    (runOp env G op st).2.offset = st.offset ∧ env.bytes.drop (runOp env G op st).2.offset = [] := by
+  obtain ⟨a, b, _⟩ := op_transparent env G hG hH hI op st h
+  rw [hend] at a b
+  obtain ⟨s1, s2⟩ := specOp_nil G op
+  rw [s2] at b
+  rw [a, b]
+  exact ⟨s1, rfl, hend⟩
+
+/-! ## termination -/
+
+/-- **shift_progress**: a `Shift` on a window that has not seen the end succeeds, keeps `Offset()`, keeps the
+bytes already visible, and strictly decreases `mu` = (bytes of the input beyond the window) + (1 unless
+`at_end_`); on a window that has seen the end it throws.  So every loop around `Shift` runs at most
+`mu + 1 ≤ length + 2` times. -/
+theorem shift_progress (env : Env) (hH : env.cfg.fixH = true) (st : St) (h : Inv env st) :
+    (st.atEnd = false → ∃ st', shift env st = .ok st' ∧ Inv env st' ∧ st'.offset = st.offset ∧
+        mu env st' < mu env st ∧ st.visible.length ≤ st'.visible.length ∧
+        (st'.visible ≠ [] ∨ st'.atEnd = true)) ∧
+    (st.atEnd = true → shift env st = .error .eof) ∧ mu env st ≤ env.bytes.length + 1 := by
+  refine ⟨fun he => ?_, fun he => shift_atEnd he, mu_le env st⟩
+  obtain ⟨st', hs, hp⟩ := shift_post hH h he
+  exact ⟨st', hs, hp.inv, hp.offset_eq, hp.mu_lt, hp.vis_le, hp.nonempty_or_end⟩
+
+theorem canon_fuel (op : Op) : canon op Res.fuel = Res.fuel := by cases op <;> rfl
+
+theorem specOp_ne_fuel (G : NumKind → Grammar) (op : Op) (rest : List Byte) : (specOp G op rest).1 ≠ Res.fuel := by
+  cases op with
+  | peek => cases rest <;> simp [specOp]
+  | get => cases rest <;> simp [specOp]
+  | skipSpaces d => simp [specOp]
+  | readLine d s =>
+    rw [specOp_readLine]; split
+    · simp
+    · split <;> simp
+  | readLineOrEOF d s =>
+    show (specOp G (.readLine d s) rest).1 ≠ _
+    rw [specOp_readLine]; split
+    · simp
+    · split <;> simp
+  | readDelimited d => rw [specOp_readDelimited]; split <;> simp
+  | readWordSameLine d =>
+    rw [specOp_readWordSameLine]; split
+    · simp
+    · split <;> simp
+  | readNumber k =>
+    rw [specOp_readNumber]; split
+    · simp
+    · split <;> simp
+
+/-- **every operation terminates**: the fuel `2·length + 4` handed to the loops is never exhausted. -/
+theorem ops_terminate (env : Env) (G : NumKind → Grammar) (hG : ∀ k, GrammarOK (G k))
+    (hH : env.cfg.fixH = true) (hI : env.cfg.fixI = true) (op : Op) (st : St) (h : Inv env st) :
+    (runOp env G op st).1 ≠ Res.fuel := by
+  intro hc
+  obtain ⟨a, _, _⟩ := op_transparent env G hG hH hI op st h
+  rw [hc, canon_fuel] at a
+  exact specOp_ne_fuel G op _ a.symm
+
+/-! ## compressed input -/
+
+/-- **compressed_concat**: reading through the member chain with any request sizes and any decoder output
+granularity yields `decode(m₁) ++ decode(m₂) ++ …`; each `Read` returns at most what was asked, and 0 only
+when nothing was asked or nothing is left; after the end every `Read` returns 0.  In particular
+`ReadCompressed::Read` is an instance of the chunk oracle of the FilePiece model over the concatenated
+plain bytes. -/
+theorem compressed_concat (orc amt : Nat → Nat) (hamt : ∀ i, 0 < amt i) (ch : Chain) :
+    (∀ f i, ch.flatten.length < f → rcReadAll orc amt f ch i = ch.flatten) ∧
+    (∀ i a, ∃ n, (rcRead orc ch i a).1 = ch.flatten.take n ∧ (rcRead orc ch i a).2.flatten = ch.flatten.drop n ∧
+        n ≤ min a ch.flatten.length ∧ (n = 0 ↔ (a = 0 ∨ ch.flatten = []))) ∧
+    (ch.flatten = [] → ∀ i a, (rcRead orc ch i a).1 = [] ∧ (rcRead orc ch i a).2.flatten = []) :=
+  ⟨fun f i hf => rcReadAll_eq orc amt hamt f ch i hf, fun i a => rcRead_is_chunk orc ch i a,
+   fun h i a => rcRead_at_end orc ch i a h⟩
+
+/-- the chain of a raw file is built member by member by the (trusted, abstract) decoder -/
+theorem compressed_members (dec : List Byte → Option (List Byte × List Byte)) (f : Nat) (raw : List Byte) (ch : Chain)
+    (h : decodeChain dec f raw = some ch) :
+    (raw = [] ∧ ch = []) ∨ (∃ plain rest ch', dec raw = some (plain, rest) ∧ ch = plain :: ch' ∧
+        decodeChain dec (f - 1) rest = some ch') :=
+  decodeChain_flatten dec f raw ch h
+
+/-! ## tokenizers -/
+
+theorem lineIter_eq (env : Env) (G : NumKind → Grammar) (hG : ∀ k, GrammarOK (G k))
+    (hH : env.cfg.fixH = true) (hI : env.cfg.fixI = true) (d : Byte) (s : Bool) :
+    ∀ (f : Nat) (st : St), Inv env st →
+      lineIter env G d s f st = specLines G d s f (env.bytes.drop st.offset) := by
+  intro f
+  induction f with
+  | zero => intro st _; rfl
+  | succ f ih =>
+    intro st h
+    obtain ⟨a, b, c⟩ := op_transparent env G hG hH hI (.readLineOrEOF d s) st h
+    rw [canon_readLineOrEOF] at a
+    simp only [lineIter, specLines]
+    generalize runOp env G (.readLineOrEOF d s) st = out at a b c
+    generalize specOp G (.readLineOrEOF d s) (env.bytes.drop st.offset) = sp at a b
+    obtain ⟨r, st'⟩ := out
+    obtain ⟨sr, n⟩ := sp
+    simp only at a b c
+    subst a
+    cases r with
+    | bytes bs =>
+      dsimp only
+      rw [ih st' c, b, List.drop_drop]
+    | _ => rfl
+
+/-- **tokenizer_total**: `TokenIter<BoolCharacter, SkipEmpty>` hands out exactly the maximal delimiter-free
+pieces of its input (all of them, or the non-empty ones), in order, nothing split, merged or lost; and
+`LineIterator` over a FilePiece enumerates exactly the spec's lines of the input. -/
+theorem tokenizer_total (d : KV.Tokenize.Byte → Bool) (skip : Bool) (s : List KV.Tokenize.Byte) :
+    KV.Tokenize.tokens d skip s = KV.Tokenize.splitSpec d skip s :=
+  KV.Tokenize.tokens_eq_splitSpec d skip s
+
+theorem lineIterator_total (env : Env) (hp : 0 < env.cfg.page) (G : NumKind → Grammar) (hG : ∀ k, GrammarOK (G k))
+    (hH : env.cfg.fixH = true) (hI : env.cfg.fixI = true) (d : Byte) (s : Bool) (mb : Nat) (b : Backend) (f : Nat) :
+    lineIter env G d s f (init env mb b) = specLines G d s f env.bytes := by
+  obtain ⟨i, o⟩ := init_spec env mb b hp hH
+  rw [lineIter_eq env G hG hH hI d s f _ i, o]; rfl
+
+/-! ## non-vacuity -/
+
+/-- a grammar satisfying the hypotheses: "a leading '0' is the number 0" -/
+def toyGrammar : Grammar := fun s => if s.head? = some 48 then some (0, 1) else none
+
+theorem toyGrammar_ok : GrammarOK toyGrammar where
+  count_le := by
+    intro s v c h
+    cases s with
+    | nil => simp [toyGrammar] at h
+    | cons a t =>
+      simp only [toyGrammar] at h
+      split at h
+      · simp at h; simp; omega
+      · simp at h
+  prefix_det := by
+    intro tok sp junk _ hs
+    cases tok with
+    | nil =>
+      have : sp ≠ 48 := by intro hc; subst hc; simp [isSpace] at hs
+      simp [toyGrammar, this]
+    | cons a t => simp [toyGrammar]
+  empty := rfl
+
+def env0 : Env := { cfg := { page := 4, fixH := true, fixI := true }, bytes := [97, 98, 32, 99, 100, 101, 102, 103, 104, 105, 106, 107, 108, 10],
+                    orc := fun _ => 3 }
+
+/-- the hypotheses of the theorems are met by a concrete non-trivial state: a window of 8 bytes over a
+14-byte input delivered in 3-byte reads, not at the end, with unread data both inside and beyond the window -/
+example : Inv env0 (init env0 1 .pipe) ∧ (init env0 1 .pipe).atEnd = false ∧
+    (init env0 1 .pipe).visible = [97, 98, 32] ∧ env0.bytes.drop 3 ≠ [] :=
+  ⟨(init_spec env0 1 .pipe (by decide) rfl).1, by decide, by decide, by decide⟩
+
+example : transcript env0 (fun _ => toyGrammar) [.readDelimited isSpace, .readDelimited isSpace, .get, .peek]
+    (init env0 1 .pipe) =
+    [(.bytes [97, 98], 2), (.bytes [99, 100, 101, 102, 103, 104, 105, 106, 107, 108], 13), (.char 10, 14), (.eof, 14)] := by
+  decide
+
+/-! ## Old: today's code violates the property (the witnesses are replayed on the real code by the check) -/
+section Old
+
+def noGrammar : NumKind → Grammar := fun _ _ => none
+
+/-- today's tree: neither repair -/
+def oldCfg (page : Nat) : Cfg := { page := page, fixH := false, fixI := false }
+
+/-- H: read mode, window of 8 bytes (page 4): `ReadDelimited` twice over "ab cdefghijkl\n".  The second word
+makes `ReadShift` compact the buffer; `mapped_offset_` is not advanced, so `Offset()` reports 10 instead of 13. -/
+def envH : Env := { cfg := oldCfg 4, bytes := [97, 98, 32, 99, 100, 101, 102, 103, 104, 105, 106, 107, 108, 10], orc := fun _ => 1000 }
+
+theorem Old.offset_after_compaction :
+    transcript envH noGrammar [.readDelimited isSpace, .readDelimited isSpace] (init envH 1 .pipe) =
+      [(.bytes [97, 98], 2), (.bytes [99, 100, 101, 102, 103, 104, 105, 106, 107, 108], 10)] ∧
+    specTranscript noGrammar envH.bytes [.readDelimited isSpace, .readDelimited isSpace] 0 =
+      [(.bytes [97, 98], 2), (.bytes [99, 100, 101, 102, 103, 104, 105, 106, 107, 108], 13)] := by
+  decide
+
+/-- I: mmap mode, window of 8 bytes (page 4) over "aaaaaaa\nbbbb": `ReadLine` consumes the first window exactly;
+the `Shift` inside `get` maps the final window and sets `at_end_`, and `get` throws although 4 bytes remain;
+the next `get` returns 'b'. -/
+def envI : Env := { cfg := oldCfg 4, bytes := [97, 97, 97, 97, 97, 97, 97, 10, 98, 98, 98, 98], orc := fun _ => 1000 }
+
+theorem Old.spurious_eof :
+    transcript envI noGrammar [.readLine 10 true, .get, .get] (init envI 1 .file) =
+      [(.bytes [97, 97, 97, 97, 97, 97, 97], 8), (.eof, 8), (.char 98, 9)] ∧
+    specTranscript noGrammar envI.bytes [.readLine 10 true, .get, .get] 0 =
+      [(.bytes [97, 97, 97, 97, 97, 97, 97], 8), (.char 98, 9), (.char 98, 10)] := by
+  decide
+
+/-- **negation of `op_transparent` / `transcript_fn` for today's code**: with either repair missing there are
+an input, a backend, a buffer size and an operation sequence whose transcript is not the spec's. -/
+theorem Old.not_transparent :
+    (∃ env mb b ops, 0 < env.cfg.page ∧ env.cfg.fixH = false ∧
+        transcript env noGrammar ops (init env mb b) ≠ specTranscript noGrammar env.bytes ops 0) ∧
+    (∃ env mb b ops, 0 < env.cfg.page ∧ env.cfg.fixH = true ∧ env.cfg.fixI = false ∧
+        transcript env noGrammar ops (init env mb b) ≠ specTranscript noGrammar env.bytes ops 0) := by
+  refine ⟨⟨envH, 1, .pipe, [.readDelimited isSpace, .readDelimited isSpace], by decide, rfl, by decide⟩,
+          ⟨{ envI with cfg := { page := 4, fixH := true, fixI := false } }, 1, .file, [.readLine 10 true, .get, .get],
+           by decide, rfl, rfl, by decide⟩⟩
+
+/-- the same two witnesses are handled correctly by the repaired code (so the repairs are what matters) -/
+theorem Old.repaired_witnesses :
+    transcript { envH with cfg := { page := 4 } } noGrammar [.readDelimited isSpace, .readDelimited isSpace]
+        (init { envH with cfg := { page := 4 } } 1 .pipe) =
+      specTranscript noGrammar envH.bytes [.readDelimited isSpace, .readDelimited isSpace] 0 ∧
+    transcript { envI with cfg := { page := 4 } } noGrammar [.readLine 10 true, .get, .get]
+        (init { envI with cfg := { page := 4 } } 1 .file) =
+      specTranscript noGrammar envI.bytes [.readLine 10 true, .get, .get] 0 := by
+  decide
+
+end Old
 
 end KV.C18
